@@ -581,6 +581,7 @@ func (fv *FuncVerifier) execTypeSwitch(st *State, env *Env, x *ast.TypeSwitchStm
 // writeSet collects the variables, heap keys and ghosts a statement may modify (syntactically).
 type writeSet struct {
 	vars    map[types.Object]bool
+	whole   map[types.Object]bool // assigned as a whole (not only element-wise)
 	heapAll bool
 	heap    map[string]bool
 	yields  bool
@@ -591,8 +592,9 @@ func (fv *FuncVerifier) collectWrites(env *Env, n ast.Node, ws *writeSet, depth 
 		return
 	}
 	info := env.info
-	var lhs func(e ast.Expr)
-	lhs = func(e ast.Expr) {
+	var lhs0 func(e ast.Expr, viaIndex bool)
+	lhs := func(e ast.Expr) { lhs0(e, false) }
+	lhs0 = func(e ast.Expr, viaIndex bool) {
 		switch x := ast.Unparen(e).(type) {
 		case *ast.Ident:
 			if o := info.ObjectOf(x); o != nil {
@@ -600,10 +602,16 @@ func (fv *FuncVerifier) collectWrites(env *Env, n ast.Node, ws *writeSet, depth 
 					ws.heap[fv.globalKey(o)] = true
 				} else {
 					ws.vars[o] = true
+					if !viaIndex {
+						if ws.whole == nil {
+							ws.whole = map[types.Object]bool{}
+						}
+						ws.whole[o] = true
+					}
 				}
 			}
 		case *ast.IndexExpr:
-			lhs(x.X)
+			lhs0(x.X, true)
 		case *ast.SelectorExpr:
 			if sel, ok := info.Selections[x]; ok {
 				bt := info.TypeOf(x.X)
@@ -705,7 +713,7 @@ func (fv *FuncVerifier) callWrites(env *Env, call *ast.CallExpr, ws *writeSet, d
 	}
 	callee := calleeOf(info, call)
 	if fn, ok := callee.(*types.Func); ok {
-		if strings.HasPrefix(fn.Name(), "spec_") {
+		if isSpecName(fn.Name()) {
 			return
 		}
 		full := fn.FullName()
@@ -777,6 +785,11 @@ func (fv *FuncVerifier) callWrites(env *Env, call *ast.CallExpr, ws *writeSet, d
 		switch externPolicy(pkgPath, full) {
 		case "pure", "drop":
 			return
+		}
+		if strings.HasPrefix(pkgPath, repoModule) {
+			if ic := fv.prog.IfaceContracts[ifaceKey(fn)]; ic != nil && ic.Has("pure", 0) {
+				return
+			}
 		}
 	}
 	ws.heapAll = true
@@ -890,6 +903,15 @@ func (fv *FuncVerifier) applyHavoc(st *State, ws *writeSet) {
 		if old, ok := st.vars[o]; ok {
 			nv := fv.fresh(o.Name(), old.Sort)
 			st.Assume(fv.typeInv(nv, o.Type()))
+			if !ws.whole[o] {
+				// only element-wise updates: a map stays (non-)nil, a slice keeps its length
+				switch {
+				case fv.w.IsMap(old.Sort):
+					st.Assume(App(SBool, "=", fv.w.MapIsNil(nv), fv.w.MapIsNil(old)))
+				case fv.w.IsSeq(old.Sort):
+					st.Assume(App(SBool, "=", fv.w.SeqLen(nv), fv.w.SeqLen(old)))
+				}
+			}
 			st.vars[o] = nv
 		}
 	}
